@@ -12,7 +12,7 @@ C. s4 binary vs the ORACLE journalctl --file (export, cat exact after parsing; t
    renderings for entry count, order and MESSAGE text) and vs the SPEC (inclusive window on
    __REALTIME_TIMESTAMP) for every window, container and --tz-offset.  Always run.
 """
-import bz2, ctypes, datetime, gzip, json, lzma, os, re, shutil, struct, subprocess, threading, time
+import bz2, ctypes, datetime, gzip, json, lzma, os, random, re, shutil, struct, subprocess, threading, time
 from concurrent.futures import ThreadPoolExecutor
 import vlib
 from vlib import CACHE, REPO
@@ -268,6 +268,70 @@ def fixtures(scratch, quick):
                 except OSError:
                     pass
     return fx
+
+
+def message_objects(buf):
+    """payload positions of the uncompressed DATA objects whose payload starts with `MESSAGE=`: {payload: [pos]}"""
+    incompat = struct.unpack_from("<I", buf, 12)[0]
+    hdr = 72 if incompat & 16 else 64          # HEADER_INCOMPATIBLE_COMPACT: two extra 32-bit words
+    out = {}
+    p = buf.find(b"MESSAGE=")
+    while p >= 0:
+        o = p - hdr
+        if o >= 0 and o % 8 == 0 and buf[o] == 1 and buf[o + 1] & 7 == 0:     # OBJECT_DATA, not compressed
+            size = struct.unpack_from("<Q", buf, o + 8)[0]
+            if hdr + 8 <= size <= len(buf) - o:
+                out.setdefault(bytes(buf[p:o + size]), []).append(p)
+        p = buf.find(b"MESSAGE=", p + 1)
+    return out
+
+
+CRAFT_VARIANTS = ("nomsg10", "nomsg50", "run40", "all")
+
+
+def craft_fixtures(scratch, bases, seed, quick, only=None):
+    """journals in which many entries have no MESSAGE field: the bytes `MESSAGE=` of stored DATA objects
+    are overwritten with `MESSAGX=` (same length; libsystemd does not verify data hashes on read).
+    The oracle for a crafted file is journalctl/libsystemd on that same file."""
+    out = []
+    for base in bases:
+        buf0 = open(base["plain"], "rb").read()
+        objs = message_objects(buf0)
+        msgs = [next((d for d in e["data"] if d.startswith(b"MESSAGE=")), None) for e in base["entries"]]
+        n = len(msgs)
+        for var in CRAFT_VARIANTS:
+            name = "%s~%s" % (base["name"], var)
+            if only is not None and name not in only:
+                continue
+            r = random.Random("%d:%s" % (seed, name))
+            if var == "nomsg10":
+                chosen = r.sample(range(n), max(1, n // 10))
+            elif var == "nomsg50":
+                chosen = r.sample(range(n), max(1, n // 2))
+            elif var == "run40":
+                i0 = r.randrange(max(1, n - 110))
+                chosen = list(range(i0, min(n, i0 + 40))) + list(range(min(n, i0 + 41), min(n, i0 + 101), 2))
+            else:
+                chosen = list(range(n))
+            buf = bytearray(buf0)
+            for i in chosen:
+                for p in objs.get(msgs[i], []):
+                    buf[p:p + 8] = b"MESSAGX="
+            path = os.path.join(scratch, "%s_%s.journal" % (base["name"], var))
+            with open(path, "wb") as f:
+                f.write(buf)
+            cont = []
+            gz = path + ".gz"
+            with open(gz, "wb") as f:
+                f.write(gzip.compress(bytes(buf), 1))
+            cont.append(("gz(py)", gz))
+            if var == "all":
+                xz = path + ".xz"
+                with open(xz, "wb") as f:
+                    f.write(lzma.compress(bytes(buf), format=lzma.FORMAT_XZ, preset=0))
+                cont.append(("xz(py)", xz))
+            out.append(dict(name=name, plain=path, containers=cont, crafted=var, base=base["name"]))
+    return out
 
 
 def journalctl(path, fmt):
@@ -634,6 +698,22 @@ def run(ctx):
                                       json.dumps(dict(a=a, got=len(got), expected=len(exp))))
                 break
     fxs = [f for f in fxs if f["sorted"]]
+    # crafted journals: many entries without a MESSAGE field (cat prints nothing for them and must continue)
+    craft_bases = [f for f in fxs if f["name"] in (("RHE_91", "Ubuntu16") if quick else ("RHE_91", "Ubuntu16", "OpenSUSE15"))]
+    crafted = craft_fixtures(scratch, craft_bases, ctx.seed, quick)
+    for fx in crafted:
+        try:
+            problems = load_oracle(fx)
+        except Exception as ex:
+            ctx.obligation_broken("oracle", "journalctl/libsystemd on crafted %s" % fx["name"], repr(ex))
+            continue
+        for p in problems[:3]:
+            ctx.obligation_broken("oracle", "journalctl vs libsystemd on crafted %s" % fx["name"], p)
+        fx["nomsg"] = sum(1 for e in fx["entries"] if e["message"] is None)
+        if fx["sorted"] and fx["nomsg"] > 0:
+            fxs.append(fx)
+    if sum(1 for f in fxs if f.get("crafted") and f["nomsg"] >= 40) < 4:
+        ctx.obligation_broken("generator", "fewer than 4 crafted journals with >= 40 MESSAGE-less entries", str([(f["name"], f.get("nomsg")) for f in crafted]))
 
     # ---- plan the runs
     runner = Runner(scratch)
@@ -643,6 +723,8 @@ def run(ctx):
     tzs = [("+00:00", 0), ("-03:30", -210), ("+05:45", 345), ("+14:00", 840), ("-12:00", -720)]
     for fx in fxs:
         W, picks = gen_windows(rng, fx["times"], quick)
+        if fx.get("crafted"):
+            W = [W[0]] + W[1::(6 if quick else 2)]
         cw = [w for w in corpus_windows(fx["name"]) if w not in W]
         W = cw + W
         corpus_n += len(cw)
@@ -662,7 +744,7 @@ def run(ctx):
                 jobs.append(dict(fx=fx, path=path, container=label, rendering="export", A=A, B=B))
                 jobs.append(dict(fx=fx, path=path, container=label, rendering="cat", A=A, B=B))
             jobs.append(dict(fx=fx, path=path, container=label, rendering="short-iso-precise", A=None, B=X))
-        for tz in tzs:
+        for tz in (tzs[1:2] if fx.get("crafted") else tzs):
             for (A, B) in few:
                 jobs.append(dict(fx=fx, path=fx["plain"], container="plain", rendering="export", A=A, B=B, tz=tz))
             jobs.append(dict(fx=fx, path=fx["plain"], container="plain", rendering="export", A=X, B=X, tz=tz, naive=True))
@@ -776,9 +858,13 @@ def run(ctx):
     # ---- B: model (Coq) vs binary.  All case files are evaluated in one parallel coqc run.
     groups = {}
     texts = []
+    window_eval_n = 0
     for fx in fxs:
         cs = window_cases[fx["name"]]
-        for part in vlib.shard(cs, 4 if len(fx["times"]) > 1000 else 1) if cs else []:
+        if fx.get("crafted") and len(fx["times"]) > 400 and quick:
+            cs = cs[:6]      # same receive times as the base journal, whose windows are all evaluated
+        window_eval_n += len(cs)
+        for part in vlib.shard(cs, 4 if (len(fx["times"]) > 1000 and len(cs) > 24) else 1) if cs else []:
             texts.append((coq_window_text(fx["times"], [(a, b, ix) for a, b, ix, _ in part]), [(fx, c) for c in part]))
     groups["window"] = ("window", texts)
     # export / cat bytes of sampled entries vs the model
@@ -789,7 +875,10 @@ def run(ctx):
         n = len(fx["entries"])
         special = [i for i, e in enumerate(fx["entries"]) if any(not text_safe_twin(k + b"=" + v) for k, v in e["pairs"])]
         nomsg = [i for i, e in enumerate(fx["entries"]) if e["message"] is None]
-        pick = set(special[:8 if quick else 200] + nomsg[:3] + [0, n - 1] + rng.sample(range(n), min(n, 12 if quick else 300)))
+        if fx.get("crafted"):
+            pick = set(nomsg[:4 if quick else 40] + rng.sample(range(n), min(n, 3 if quick else 40)))
+        else:
+            pick = set(special[:8 if quick else 200] + nomsg[:3] + [0, n - 1] + rng.sample(range(n), min(n, 12 if quick else 300)))
         sample += [(fx, i) for i in sorted(pick)]
     etexts = []
     for sh_ in vlib.shard(sample, 8) if sample else []:
@@ -805,6 +894,21 @@ def run(ctx):
     for sh_ in vlib.shard(list(range(len(rows))), 4) if rows else []:
         ctexts.append((HDR + "Definition cases : list (list (string * string) * string) := [\n%s\n].\nEval vm_compute in (cat_bad cases).\n" % ";\n".join(rows[k] for k in sh_), [sample[k] for k in sh_]))
     groups["cat"] = ("cat", ctexts)
+    # whole cat runs on the crafted journals (small ones): entries without MESSAGE print nothing, the loop continues
+    crtexts = []
+    cat_run_cases = 0
+    for fx in fxs:
+        if not fx.get("crafted") or len(fx["entries"]) > (400 if quick else 3000):
+            continue
+        cj = [j for j in jobs if j["fx"] is fx and j["rendering"] == "cat" and j["container"] == "plain" and not j.get("tz") and j["rc"] == 0]
+        cj = cj[:4 if quick else 40]
+        if not cj:
+            continue
+        es = "; ".join("((%d)%%Z, %s)" % (e["t"], "None" if e["message"] is None else '(Some "%s")' % hx(e["message"])) for e in fx["entries"])
+        cs = ";\n".join('(%s, %s, "%s")' % (zopt(j["A"]), zopt(j["B"]), hx(j["out"])) for j in cj)
+        cat_run_cases += len(cj)
+        crtexts.append((HDR + "Definition es : list (Z * option string) := [%s].\nDefinition cases : list (option Z * option Z * string) := [\n%s\n].\nEval vm_compute in (cat_run_bad es cases).\n" % (es, cs), cj))
+    groups["cat_run"] = ("whole cat run", crtexts)
     # python parser twin vs Coq parser
     blobs = [fx["slices"][i] for fx, i in sample]
     streams = gen_streams(rng, blobs, 250 if quick else 3000) if blobs else []
@@ -875,6 +979,12 @@ def run(ctx):
         ctx.obligation_broken("generator", "no sampled entry separates the old text-only export printer from the repaired one", "")
     for (fx, i), code in (res["cat"] or [])[:1]:
         ctx.obligation_broken("correspondence", "MESSAGE + newline (oracle) vs Model.Journal.render_cat", json.dumps(dict(fixture=fx["name"], entry_index=i)))
+    cat_run_dis = 0
+    for job, code in (res["cat_run"] or []):
+        cat_run_dis += 1
+        if cat_run_dis == 1:
+            ctx.obligation_broken("correspondence", "s4 --journal-output cat (stdout of a run) vs Model.Journal.journal_stdout RCat (render_cat, cat_without_message)",
+                                  json.dumps(dict(case=case_of(job))))
     pbad = res["parse"]
     for k, code in (pbad or [])[:1]:
         ctx.obligation_broken("correspondence", "python twin of parse_export vs Model.Journal.parse_export", json.dumps(dict(stream_hex=hx(streams[k]))))
@@ -890,8 +1000,12 @@ def run(ctx):
     ctx.coverage.update(
         evaluations=stats["runs"] + ts_cases + len(streams) + len(sample),
         distinct_nontrivial=len(distinct),
-        rule="a case = (journal, container, rendering, window A B, --tz-offset, bound notation) run on the real s4 binary; non-trivial = a bound within 1 microsecond of an entry's receive time or A = B; distinct by that tuple. Windows per journal: unbounded; for picked entry times X (first, last, median, most duplicated, random): every combination of X-1, X, X+1 as lower, upper and both bounds; pairs of picked times; before all; after all; 0; bounds before 1970",
+        rule="a case = (journal, container, rendering, window A B, --tz-offset, bound notation) run on the real s4 binary; non-trivial = a bound within 1 microsecond of an entry's receive time or A = B; distinct by that tuple. Journals: the shipped fixtures and, crafted from them every run, journals in which 10 %, 50 %, a run of 40 consecutive + 30 interleaved, and all entries have no MESSAGE field (plain and gz/xz copies). Windows per journal: unbounded; for picked entry times X (first, last, median, most duplicated, random): every combination of X-1, X, X+1 as lower, upper and both bounds; pairs of picked times; before all; after all; 0; bounds before 1970",
         samples=[dict(fixture=j["fx"]["name"], args=j["args"][:-1], printed_bytes=len(j["out"])) for j in (jobs[1], jobs[len(jobs) // 2], jobs[-1])],
+        crafted_journals={fx["name"]: dict(entries=len(fx["entries"]), entries_without_MESSAGE=fx["nomsg"],
+                                          longest_run_without_MESSAGE=longest_run([e["message"] is None for e in fx["entries"]]))
+                          for fx in fxs if fx.get("crafted")},
+        model_cat_run_cases=cat_run_cases, model_cat_run_disagreements=cat_run_dis,
         fixtures={fx["name"]: dict(entries=len(fx["entries"]), distinct_times=len(set(fx["times"])), windows=len(fx["windows"]),
                                    containers=[c for c, _ in fx["containers"]],
                                    entries_with_non_text_value=sum(1 for e in fx["entries"] if any(not text_safe_twin(k + b"=" + v) for k, v in e["pairs"])))
@@ -900,7 +1014,7 @@ def run(ctx):
                                                      container_runs=stats["containers"], tz_offset_runs=stats["tz"]),
         windows_total=allw, corpus_windows=corpus_n, phase_seconds=phase, sharp_window_runs=stats["sharp"], empty_selection_runs=stats["empty_selection"],
         export_entries_compared_exactly_with_journalctl=export_exact,
-        model_window_cases=sum(len(v) for v in window_cases.values()), model_window_disagreements=model_dis,
+        model_window_cases=window_eval_n, model_window_disagreements=model_dis,
         coq_spec_vs_binary_disagreements=spec_dis_coq,
         windows_on_which_the_old_stop_test_differs=old_differs,
         model_export_entries=len(sample), model_export_disagreements=export_dis,
@@ -929,6 +1043,14 @@ def classes_export(fx, i):
     return []
 
 
+def longest_run(flags):
+    best = cur = 0
+    for f in flags:
+        cur = cur + 1 if f else 0
+        best = max(best, cur)
+    return best
+
+
 def brief(ix):
     if len(ix) <= 8:
         return str(ix)
@@ -947,6 +1069,13 @@ def replay(ctx, path):
     os.makedirs(os.path.join(scratch, "tmp"))
     runner = Runner(scratch)
     fxs = {fx["name"]: fx for fx in fixtures(scratch, True)}
+    need = {f["case"]["fixture"] for f in r.get("failures", []) if "~" in f["case"].get("fixture", "")}
+    if need:
+        bases = [fxs[b] for b in {n.split("~")[0] for n in need} if b in fxs]
+        for b in bases:
+            load_oracle(b)
+        for fx in craft_fixtures(scratch, bases, r.get("seed", ctx.seed), True, only=need):
+            fxs[fx["name"]] = fx
     bad = 0
     for f in r.get("failures", []):
         c = f["case"]
